@@ -379,8 +379,12 @@ def evaluate(case):
                 # manual (PADDING): the label on the line itself and a label alone on the line IMMEDIATELY before read the
                 # padded address; label-only lines further up keep the unpadded one
                 alone = [i for i in here if not case['att'][i]]
+                attached = [i for i in here if case['att'][i]]
+                # ... and when the padded line carries a label of its own, that one is the label that is moved; a label-only
+                # line before it then keeps the unpadded address (observed; the manual does not address this combination)
+                keep = alone if attached else alone[:-1]
                 for i in here:
-                    labaddr[i] = unpadded if (i in alone[:-1]) else a
+                    labaddr[i] = unpadded if (i in keep) else a
                 if it[0] == 'GAP':
                     a += it[1]
                 else:
